@@ -64,6 +64,8 @@ class Outcome:
             return True
         if ex.exc.cls != self.exc:
             return False
+        if self.site is not None and self.site.endswith("*"):
+            return ex.exc.site.startswith(self.site[:-1])
         return self.site is None or ex.exc.site == self.site
 
 
@@ -416,6 +418,10 @@ class HeapExec(Exec):
             return V("idset", Array(fresh(name), R, B))
         if kind == "listref":
             return V("listref", fresh_const(name, R))
+        if kind == "id":
+            return V("id", fresh_const(name, R))
+        if kind == "msg":
+            return V("msg", None)
         return Exec.fresh_of_kind(self, kind, name)
 
     def hook_call(self, name, recv, arg, p):
@@ -564,6 +570,14 @@ class HeapExec(Exec):
     # ------------------------------------------------------------------ contracts at call sites
     def apply_spec(self, spec, p, args, label):
         """replace a call by the callee's contract: PRE obligations, then one continuation per outcome"""
+        args = dict(args)
+        for n, k in spec.params:
+            if k == "ref" and args[n].k == "aseq":
+                # a tuple value handed over as an object: it is iterable and iterates as itself
+                s = args[n].t
+                o = seqobj(s.n, s.a)
+                p.assume(iterable(o), itlen(o) == s.n, itat(o) == s.a, o != NONE)
+                args[n] = vref(o)
         ctx = Ctx(spec, p.S, args)
         for c in clauses(spec.requires(ctx)):
             self.oblig(p, "PRE", "%s/%s" % (label, c.name), c.f)
@@ -579,13 +593,16 @@ class HeapExec(Exec):
                 S1 = q.S.havoc(o.mods, "post")
             else:
                 S1 = q.S
-            res = fresh_value(o.res, "res")
+            res = fresh_value("int" if (o.res.startswith("wit") or o.res == "payload") else o.res, "res")
             q.set_state(S1)
             q.assume(*[c.assumable() for c in clauses(o.post(ctx, S1, res))])
             if o.kind == "return":
                 outs.append((q, res))
             else:
-                self.raise_(q, Exc(o.exc, o.site or label))
+                site = o.site or label
+                if p.cur_exc is not None:
+                    site = "in-handler:" + site
+                self.raise_(q, Exc(o.exc, site, res))
         return outs
 
 
@@ -648,6 +665,17 @@ def verify_spec(spec):
                 if o2 is not o and o2.when is not None and not o2.user:
                     ex.oblig(p, "RAISES", "%s/not-%s" % (o.label, o2.label), Not(o2.when(ctx)),
                              props=spec.props | {"C02"})
+        if o.res == "payload":
+            value = x.exc.payload
+            if value is None or not isinstance(value, V) or value.k != "int":
+                ex.oblig(p, "KIND", "%s/witness" % o.label, BoolVal(False), note="exception carries no witness")
+                continue
+        elif o.res.startswith("wit"):
+            # ghost witness of an exit taken inside loop #k: the iteration index on this path
+            value = vint(p.extra[o.res]) if o.res in p.extra else None
+            if value is None:
+                ex.oblig(p, "KIND", "%s/witness" % o.label, BoolVal(False), note="exit is not inside loop %s" % o.res)
+                continue
         if o.res != "none" and x.kind == "return":
             if value is None or (o.res == "ref" and value.k not in ("ref",)) or \
                     (o.res == "aseq" and value.k not in ("aseq",)) or (o.res == "bool" and value.k != "bool") \
